@@ -146,6 +146,9 @@ def main(mod, tier, preimport=()):
     tot = merge(results)
     if hasattr(mod, "post"):
         mod.post(tot, tier)
+    if os.environ.get("VERIF_DUMP"):
+        with open(os.environ["VERIF_DUMP"], "w") as fh:
+            json.dump(tot["violations"], fh, indent=0, default=repr)
     known = load_known(prop)
     printed_known = set()
     unknown = []
